@@ -113,6 +113,15 @@ CREDIT = {'Liabilities', 'Equity', 'Income'}
 # ---------------------------------------------------------------------------
 # execution helper
 
+def safe_rows(ctx, conn, text, law):
+    """Execute a statement of the harness; an exception of the engine is a violation of the law, not a harness error."""
+    try:
+        return conn.execute(text).fetchall()
+    except Exception as exc:  # noqa: BLE001
+        ctx.violation(f'c18.{law}.raised.{type(exc).__name__}', f'{text}: {type(exc).__name__}: {exc}', {'law': law, 'statement': text})
+        return None
+
+
 def run_law(ctx, name, columns, rows, exprs, refs, kinds=None):
     """Evaluate `SELECT k, <exprs> FROM #law` and compare each cell with refs[i](row dict)."""
     if not rows:
@@ -185,7 +194,9 @@ def date_laws(ctx):
     mt = model.ModelTable('law', [('k', T_INT), ('x', T_DATE)], [(i, d) for i, d in enumerate(dates)])
     conn = engine.connection([mt])
     for u in TRUNC_UNITS:
-        res = conn.execute(f'SELECT date_trunc("{u}", x) AS t FROM #law').fetchall()
+        res = safe_rows(ctx, conn, f'SELECT date_trunc("{u}", x) AS t FROM #law', 'date_trunc.monotone')
+        if res is None:
+            break
         ctx.count('obs.monotonicity_pairs', max(0, len(res) - 1))
         for (a,), (b,) in zip(res, res[1:]):
             if b < a:
@@ -302,7 +313,9 @@ def account_laws(ctx):
     # parent(a):leaf(a) = a  — string concatenation does not exist in BQL: compare in the harness
     mt = model.ModelTable('law', [('k', T_INT), ('a', T_STR)], [(i, a) for i, a in enumerate(mine)])
     conn = engine.connection([mt])
-    res = conn.execute('SELECT a, parent(a) AS p, leaf(a) AS l, account_sortkey(a) AS s FROM #law').fetchall()
+    res = safe_rows(ctx, conn, 'SELECT a, parent(a) AS p, leaf(a) AS l, account_sortkey(a) AS s FROM #law', 'account_parent_leaf')
+    if res is None:
+        return
     for a, p, l, s in res:
         ctx.count('obs.parent_leaf_checks')
         rebuilt = f'{p}:{l}' if p else l
@@ -327,18 +340,42 @@ def account_laws(ctx):
         inv.add_amount(A(D('-1'), 'EUR'))
         pos = position.Position(A(D('3'), 'HOOL'), None)
         lconn = engine.connection([model.ModelTable('law', [('k', T_INT), ('a', T_STR), ('d', T_DEC)], [(0, a, D('1.50')), (1, a, D('-2')), (2, a, None)])])
-        out = lconn.execute('SELECT possign(d, a) AS r FROM #law').fetchall()
+        out = safe_rows(ctx, lconn, 'SELECT possign(d, a) AS r FROM #law', 'possign')
+        if out is None:
+            break
         exp = [(D('-1.50'),) if flip else (D('1.50'),), (D('2'),) if flip else (D('-2'),), (None,)]
         ctx.count('obs.possign_checks')
         if [tuple(r) for r in out] != exp or any(not same(x[0], y[0]) for x, y in zip(out, exp)):
             ctx.violation('c18.possign', f'possign(d, {a!r}) = {show(out)} expected {show(exp)}', {'account': a})
             break
-    # possign on amount / position / inventory through a ledger connection
+    # the same laws with the root account names configured by the ledger (name_assets ... options)
     from .. import ledgers
+    rled = ledgers.gen_ledger(ctx.rng('renamed-ledger'), ntxn=8, renamed_roots=True)
+    rconn = engine.connection(ledger=rled.loaded)
+    R = ledgers.RENAMED
+    rnames = [':'.join([R[a.split(':')[0]]] + a.split(':')[1:]) for a in mine[::5]]
+    rconn.tables['law'] = engine.harness_table(model.ModelTable('law', [('k', T_INT), ('a', T_STR), ('d', T_DEC)], [(i, a, D('2.50')) for i, a in enumerate(rnames)]))
+    rres = safe_rows(ctx, rconn, 'SELECT a, account_sortkey(a) AS s, possign(d, a) AS p FROM #law', 'renamed_roots')
+    if rres is None:
+        return
+    order = [R[x] for x in ROOTS]
+    by_key = [r[0] for r in sorted(rres, key=lambda r: r[1])]
+    by_def = sorted((r[0] for r in rres), key=lambda a: (order.index(a.split(':')[0]), a))
+    ctx.count('obs.renamed_root_checks', len(rres))
+    if by_key != by_def:
+        ctx.violation('c18.account_sortkey', 'with renamed root accounts the ordering by account_sortkey differs from (type, name)', {'ledger_options': 'name_assets=Actifs ...'})
+    for a, _, p in rres:
+        flip = a.split(':')[0] in {R[x] for x in CREDIT}
+        if p != (D('-2.50') if flip else D('2.50')):
+            ctx.violation('c18.possign', f'with renamed root accounts possign(2.50, {a!r}) = {p}', {'account': a})
+            break
+    # possign on amount / position / inventory through a ledger connection
     led = ledgers.gen_ledger(ctx.rng('possign-ledger'), ntxn=8)
     lc = engine.connection(ledger=led.loaded)
-    res = lc.execute('SELECT account, position, possign(position, account) AS p, units(position) AS u, possign(units(position), account) AS pu, '
-                     'balance, possign(balance, account) AS pb FROM #postings').fetchall()
+    res = safe_rows(ctx, lc, 'SELECT account, position, possign(position, account) AS p, units(position) AS u, possign(units(position), account) AS pu, '
+                    'balance, possign(balance, account) AS pb FROM #postings', 'possign')
+    if res is None:
+        return
     for acc, pos, ppos, u, pu, bal, pbal in res:
         flip = acc.split(':')[0] in CREDIT
         ctx.count('obs.possign_checks')
@@ -506,7 +543,7 @@ def finalize(merged):
     laws = set(merged['sets'].get('laws', ()))
     if want - laws:
         reasons.append(f'laws not executed: {sorted(want - laws)}')
-    for k in ('obs.dates_enumerated', 'obs.monotonicity_pairs', 'obs.date_bin_boundary_dates', 'obs.parent_leaf_checks', 'obs.possign_checks', 'obs.sortkey_orderings'):
+    for k in ('obs.dates_enumerated', 'obs.monotonicity_pairs', 'obs.date_bin_boundary_dates', 'obs.parent_leaf_checks', 'obs.possign_checks', 'obs.sortkey_orderings', 'obs.renamed_root_checks'):
         if c.get(k, 0) == 0:
             reasons.append(f'{k} == 0')
     merged['extra']['dates_enumerated'] = c.get('obs.dates_enumerated', 0)
